@@ -21,6 +21,14 @@ struct Progress {
     polls: usize,
 }
 
+/// a second handle on an fd somebody else owns (never closes it)
+struct SameFd(i32);
+impl AsFd for SameFd {
+    fn as_fd(&self) -> std::os::unix::io::BorrowedFd<'_> {
+        unsafe { std::os::unix::io::BorrowedFd::borrow_raw(self.0) }
+    }
+}
+
 fn is_nonblock(fd: impl AsFd) -> bool {
     rustix::fs::fcntl_getfl(fd).map(|f| f.contains(rustix::fs::OFlags::NONBLOCK)).unwrap_or(false)
 }
@@ -231,6 +239,16 @@ fn run_case(lines: &[String], out: &mut impl Write) {
                 }
             }
             "settle" => settle(&mut el, &prog),
+            // somebody tries to adapt the very fd the live adapter owns: the poller refuses (EEXIST); the refusal must
+            // not cost the live adapter its registration
+            "adaptsame" => {
+                if !prog.borrow().done {
+                    match h.adapt_io(SameFd(raw)) {
+                        Ok(a2) => std::mem::forget(a2),
+                        Err(_) => {}
+                    }
+                }
+            }
             // the executor is removed while its task (which owns the adapter) is parked: the future is dropped,
             // and with it the adapter — whose Drop re-enters the loop's source list
             "removeexec" => {
